@@ -6,6 +6,7 @@ package main
 import (
 	"fmt"
 	"math/rand"
+	"os"
 	"time"
 
 	"src.elv.sh/pkg/persistent/vector"
@@ -175,7 +176,11 @@ func histories(c *lib.Ctx, dir string) error {
 }
 
 func judgeHistories(c *lib.Ctx, dir, name string, hs [][]hevent, metas []hmeta) error {
-	bad, err := lib.JudgeGroups(c, name, dir, "TracePVector", hs, 8, 12*time.Minute)
+	if os.Getenv("VERIF_C06_CORRUPT") == "hist" && len(hs[0]) > 20 { // self-test: the walker must reject this
+		e := &hs[0][20]
+		e.AllIt[0] = append([]rn{{5, 1}}, e.AllIt[0]...)
+	}
+	bad, err := lib.JudgeGroups(c, name, dir, "TracePVector", hs, 5, 12*time.Minute)
 	if err != nil {
 		return err
 	}
